@@ -1,13 +1,31 @@
 # table consumed by tools_gen_manifest.py
+NOTE = ("Trusted base: go/ssa (x/tools v0.50.0) as the semantics of /repo's working tree; the executor's translation, validated on every run by "
+        "re-executing path models on the real build (traces_validated_against_impl); z3 4.8.12. Environment stubs (in-memory files, LIFO sync.Pool, "
+        "fmt/errors, reflect, math contracts) are listed in the evidence. Bounds (lengths, ranks, operation counts, loop unwinding) are in the harness "
+        "sources under /verif/harness and in DESIGN.md; nothing outside them is claimed. Open known findings are listed in known_findings.json.")
+def C(text):
+    return {"text": text, "note": NOTE}
 CHECKS.update({
- "C20": {"text": "bfloat16: every obligation is decided by z3 over all 2^32 float32 bit patterns / all 65,536 codes (one symbolic input, no sampling) on the SSA of the real conversion functions.",
-         "note": "Trusts go/ssa, the executor's translation (validated per path against the real build), z3. Reference = IEEE RNE narrowing written on bit patterns in the harness."},
- "C11": {"text": "Encoder/decoder pairs executed symbolically: the value of the real struct is symbolic, the decoder's result is compared field by field; bounded by the ranks/lengths forked in the harness.",
-         "note": "Bounds per harness (rank<=4 etc.) stated in /verif/harness; outside them nothing is claimed."},
+ "C01": C("Public-API scripts (CreateForWrite, CreateDataset, Write, Close, Open, Walk, Read/ReadStrings) are executed symbolically end to end on an in-memory file: every element bit pattern is a solver variable, superblock version / rank / extents / chunk extents are forked within small bounds; read-back equality is decided by z3 (or folded by the bit-slice normal form)."),
+ "C02": C("Attribute histories (prefix of concrete writes to sit in compact, threshold or dense storage, then symbolic upsert/delete operations over present and absent names and four value kinds) through the public API, reopen, comparison with a model map; values symbolic."),
+ "C03": C("Creation histories over a small path alphabet (groups, datasets, hard links; duplicates and missing parents) through the public API, reopen, Walk == model tree; which operation comes next is forked, payloads symbolic."),
+ "C04": C("Two datasets plus symbolic operations aimed at one of them (attributes, rewrite, hard link, new sibling); after reopen every object's data and attributes equal its own model; all data values symbolic."),
+ "C05": C("After a symbolic creation history the allocator's blocks are pairwise disjoint and inside the file, nothing is written beyond allocated space, and the end-of-file address stored in the superblock equals the allocated end; plus allocator step obligations over 64-bit symbolic sizes. Conformance to the HDF5 specification as judged by an independent decoder is outside the claim (DESIGN.md C05)."),
+ "C07": C("Each message parser is executed on an arbitrary buffer (length forked up to N, every byte symbolic); implicit obligations (index/slice bounds, nil, division, explicit panic, allocation governed by an unchecked size field) are discharged by z3 on every path."),
+ "C08": C("Shuffle, Fletcher-32 and LZF encoders against both decoders (writer-side Remove and the reader-side pipeline) and the pipeline message encoder against the reader's parser, payload bytes symbolic within small lengths; deflate/bzip2 are not modelled (stdlib compress/*)."),
+ "C09": C("Hyperslab and ReadSlice results compared with the same selection of the full Read on contiguous and chunked float64 datasets (dims, counts, blocks, starts, strides forked small; element values symbolic; ReadSlice bounds with full 64-bit symbolic start/count)."),
+ "C10": C("Create, close, then OpenForWrite/OpenDataset sessions with symbolic attribute operations (or none), reopen: content equals previous content plus the modification; a session without modification leaves the file bytes identical (compared term by term)."),
+ "C11": C("Encoder/decoder pairs executed symbolically: the value of the real struct is symbolic, the decoder's result is compared field by field; bounded by the ranks/lengths forked in the harness."),
+ "C12": C("Variable-length string / int32-sequence datasets through the public API: stored datatype is recognised as variable-length of the written base type; values read back equal or the read fails; plus global-heap collection obligations."),
+ "C13": C("Resizable chunked dataset: Resize within/beyond max dims accepted/rejected, optional rewrite, reopen: last requested shape, retained values kept, new space zero; element values symbolic, sizes forked small."),
+ "C14": C("jenkinsHash equals lookup3 for every byte string of length 0..32 (0..64 thorough; bytes symbolic, one obligation per length); B-tree v2 one-step harness from API-built pre-states (capacity, fill, insertion order forked; heap ids symbolic) incl. the three delete variants and write/load round trip."),
+ "C15": C("Fractal heap one-step harness (block size, object sizes forked; bytes symbolic): insert/overwrite/delete/get against a model, counters, failed insert changes nothing, write/load round trip through both readers."),
+ "C16": C("A valid API script with one failing call (nine kinds, forked) inserted: the call returns an error, later calls work, Close twice, reopened content equals the model that ignores the failed call."),
+ "C17": C("A library-written file cut at every length in the forked range: Open/Walk/Read/Attributes return an error or exactly the intact answer; element values symbolic."),
+ "C19": C("Selector: one inductive step from an arbitrary stability memory with arbitrary float64 features (all bit patterns), any validated constraints: allowed-modes gate, confidence range and fallback, stability period. Configurations: the same attribute history under default / no-rebalancing / lazy configurations gives byte-identical files."),
+ "C20": C("bfloat16: all 2^32 float32 patterns / all 65,536 codes decided by z3 from one symbolic input. FP8: exponent forked (all 256 values across harnesses), sign and mantissa symbolic, result code enumerated by the solver; nearest/ties/NaN obligations against the decoder's own table."),
 })
 NA.update({
- "C06": "quantifies over a fixed concrete corpus against shipped h5dump text: nothing to make symbolic; differential testing is a different technique family (DESIGN.md §3 C06)",
+ "C06": "quantifies over a fixed concrete corpus against shipped h5dump text: nothing to make symbolic; differential testing is a different technique family (DESIGN.md C06)",
+ "C18": "schedule-as-symbolic-variable checker (trace mode) not finished in this session; see DESIGN.md C18 for what exists",
 })
-for k in ["C01","C02","C03","C04","C05","C07","C08","C09","C10","C12","C13","C14","C15","C16","C17","C18","C19"]:
-    if k not in CHECKS:
-        NA[k] = "check under construction in this session (engine exists, harness not yet registered); will be claimed once it runs clean on the unchanged tree"
